@@ -4,8 +4,6 @@ From BP Require Import Base.Prelude Model.Types Model.Varint Model.Object Model.
 From BP Require Import gen.Tables Spec.Varint Spec.C06Wire.
 From BP Require Import Proofs.C06SpecP Proofs.C06LoopP Proofs.C06EncP Proofs.C06StoreP Proofs.C06DecP.
 
-Definition plain_msg (f : fdesc) : Prop := plain_msg_field f /\ msg_hinted f.
-
 Definition pres_inv (sc : schema) (o : obj) (seen : list wrec) : Prop :=
   let cd := get_class sc (ocls o) in
   (forall j f, nth_error (cfields cd) j = Some f -> fgroup f = None -> singular_hint (fhint f) = true ->
@@ -171,9 +169,6 @@ Proof.
 Qed.
 
 (* ---- the three reports ---- *)
-Definition optional_like (f : fdesc) : Prop :=
-  fgroup f = None /\ (fopt f = true \/ exists w t, fwraps f = Some w /\ fhint f = HOptional t).
-
 Lemma optional_like_hint sc ng f :
   wf_field sc ng f = true -> optional_like f -> exists t, fhint f = HOptional t.
 Proof.
